@@ -467,6 +467,15 @@ func (v *FnVC) fieldAddr(x *ssa.FieldAddr) {
 		v.places[x] = np
 		return
 	}
+	if p, ok := v.places[x.X]; ok && (p.Kind == "elem" || p.Kind == "arrelem") {
+		// field of a struct stored by value in a slice/array element
+		np := *p
+		np.Path = append(append([]int{}, p.Path...), x.Field)
+		np.PathT = append(append([]types.Type{}, p.PathT...), p.Typ)
+		np.Typ = ft
+		v.places[x] = &np
+		return
+	}
 	base := v.val(x.X)
 	if p, ok := v.places[x.X]; ok && p.Kind != "cell" {
 		v.unsupported("fieldaddr through " + p.Kind + " place")
@@ -705,6 +714,11 @@ func (v *FnVC) mapUpdate(x *ssa.MapUpdate) {
 	m, k, val := v.val(x.Map), v.val(x.Key), v.val(x.Value)
 	kk, dk, _ := v.mapKeys(x.Map.Type())
 	v.safety("nil-map-write", fmt.Sprintf("(not (= %s 0))", m.S), x.Pos())
+	if types.IsInterface(x.Map.Type().Underlying().(*types.Map).Key()) {
+		// storing under an interface-typed key panics when the dynamic value is unhashable
+		v.w.declareOnce("spec.hashable", "(declare-fun spec.hashable (Int) Bool)")
+		v.safety("map-key-hashable", fmt.Sprintf("(spec.hashable %s)", k.S), x.Pos())
+	}
 	v.set(kk, v.heapSort(kk), fmt.Sprintf("(store %s %s (store (select %s %s) %s %s))", v.get(kk), m.S, v.get(kk), m.S, k.S, val.S))
 	v.set(dk, v.heapSort(dk), fmt.Sprintf("(store %s %s (store (select %s %s) %s true))", v.get(dk), m.S, v.get(dk), m.S, k.S))
 }
